@@ -331,11 +331,26 @@ async fn run_async(c: &Case) -> CaseResult {
             tokio::time::sleep_until(t0 + target).await;
         }
         let svc = &services[call.svc as usize % services.len()];
+        let n = inflight.get();
+        // every service on the thread shares the limit: the others are asked first (an answer one
+        // of them gave earlier says nothing about now), the service that will be called last, so
+        // that its waker is the one the counter keeps
+        for (k, other) in services.iter().enumerate() {
+            if k == call.svc as usize % services.len() {
+                continue;
+            }
+            let ow = Arc::new(CountW(AtomicUsize::new(0)));
+            let owaker = Waker::from(ow.clone());
+            let mut ocx = Context::from_waker(&owaker);
+            let oready = other.poll_ready(&mut ocx).is_ready();
+            if oready != (n < limit) {
+                return Err(Fail::new("C18/gate", format!("call {}: poll_ready of the other service on the thread is {} with {} handshake(s) in progress and a limit of {}", i, if oready { "Ready" } else { "Pending" }, n, limit)));
+            }
+        }
         let cw = Arc::new(CountW(AtomicUsize::new(0)));
         let waker = Waker::from(cw.clone());
         let mut cx = Context::from_waker(&waker);
         let ready = svc.poll_ready(&mut cx).is_ready();
-        let n = inflight.get();
         if n >= limit {
             reached_limit = true;
         }
@@ -587,7 +602,7 @@ pub fn strategy() -> impl Strategy<Value = Case> {
         .prop_map(|(libs, limit, timeout_ms, cloned, calls, pipe_cap, slices)| Case { libs, limit, timeout_ms, cloned, calls, pipe_cap, slices })
 }
 
-const RULE: &str = "(1..2 acceptor services on one thread from {rustls 0.23, OpenSSL}, limit 1..3, handshake timeout in {0.1, 0.5, 1, 3, 5} s, configured factory used directly or cloned, 1..5 calls at generated virtual times; clients: complete (rustls or OpenSSL client, generated delay before each write, payloads up to 64 KiB both ways, the server writing its payload with write_all or with vectored writes of 2..4 slices), stall after n bytes, garbage with/without a record header, disconnect) over in-memory pipes (1 MiB per direction, or only 0.7..20 KB so that writers meet Pending in the middle of a write) under Tokio's paused clock, each case on a fresh thread; oracle: poll_ready is Pending iff the number of handshakes in progress on the thread is >= the limit and a parked poll is woken when a handshake ends; every call resolves to Ok / TLS error / Timeout no later than the timeout, Timeout never earlier, a completing client with total delay below the timeout gets Ok and both payloads arrive unchanged, a stalled client gets Timeout; non-trivial = a stalled or delayed client, the limit reached, or a payload > 16 KiB";
+const RULE: &str = "(1..2 acceptor services on one thread from {rustls 0.23, OpenSSL}, limit 1..3, handshake timeout in {0.1, 0.5, 1, 3, 5} s, configured factory used directly or cloned, 1..5 calls at generated virtual times; clients: complete (rustls or OpenSSL client, generated delay before each write, payloads up to 64 KiB both ways, the server writing its payload with write_all or with vectored writes of 2..4 slices), stall after n bytes, garbage with/without a record header, disconnect) over in-memory pipes (1 MiB per direction, or only 0.7..20 KB so that writers meet Pending in the middle of a write) under Tokio's paused clock, each case on a fresh thread; oracle: poll_ready of every service on the thread (all are asked before each call) is Pending iff the number of handshakes in progress on the thread is >= the limit and a parked poll is woken when a handshake ends; every call resolves to Ok / TLS error / Timeout no later than the timeout, Timeout never earlier, a completing client with total delay below the timeout gets Ok and both payloads arrive unchanged, a stalled client gets Timeout; non-trivial = a stalled or delayed client, the limit reached, or a payload > 16 KiB";
 
 pub fn run(ctx: &Ctx) {
     ctx.assume("virtual time (tokio::time::pause) with millisecond sampling; client delays never sum to within 10 ms of the timeout (the tie is not ranked by the property); only the rustls 0.23 and OpenSSL acceptors named in the quantifier are built");
